@@ -106,6 +106,13 @@ def model (f : List String) : String :=
 def field (ans : String) (key : String) : Option String :=
   (ans.splitOn " ").findSome? fun t => if t.startsWith (key ++ "=") then some (t.drop (key.length + 1)).toString else none
 
+/-- `b` is `a` with exactly two entries exchanged, and those two differ -/
+def swapped {α : Type} [BEq α] (a b : List α) : Bool :=
+  a.length == b.length &&
+  match ((a.zip b).filter fun (x, y) => !(x == y)) with
+  | [(x1, y1), (x2, y2)] => x1 == y2 && x2 == y1
+  | _ => false
+
 def judge (f : List String) (ans : String) : String :=
   match f with
   | ["set", _name, members, _probes, _mv, _pv] =>
@@ -123,6 +130,7 @@ def judge (f : List String) (ans : String) : String :=
           let equal := rxs == rys
           let feat := "\t" ++ (if equal then "equal" else "different") ++
             (if !equal && hx == hy then " collision" else "") ++
+            (if swapped hxs hys then " two-components-exchanged" else "") ++
             (if rxs.length ≥ 2 then " nt" else "")
           -- leaf hashes respect leaf equality
           let incoherent := (List.zip (List.zip rxs rys) (List.zip hxs hys)).any fun ((a, b), (h, k)) => a == b && h != k
@@ -134,6 +142,10 @@ def judge (f : List String) (ans : String) : String :=
             -- (for every shape: the combiner is injective in its last argument — `combine_inj`,
             --  `tuple_last_injective`, `pair_second_injective` — and variants and pointers pass their content on)
             if lastOnly && hx == hy then "bad:last-member-change-did-not-change-hash" ++ feat
+            -- order sensitivity: y is x with two components exchanged (leaf hashes h ≠ k at positions i < j of x
+            -- are k, h in y, everything else alike) => the hashes differ (up to a collision of the 64-bit mixer,
+            -- which none of the grids contains)
+            else if swapped hxs hys && hx == hy then "bad:exchanging-two-components-did-not-change-hash" ++ feat
             else if comparable sh then
               let want := bit (c != .eq) ++ bit (c == .eq) ++ bit (c == .lt) ++ bit (c == .gt) ++
                 bit (c != .gt) ++ bit (c != .lt)
